@@ -809,6 +809,8 @@ pub fn scale_cases() -> Vec<(&'static str, usize)> {
         ("ladder-other-binding", vec![8, 24, 40]),
         ("ladder-other-both", vec![32]),
         ("bindings+fmt", vec![400, 1000]),
+        ("structs+fmt", vec![100, 300]),
+        ("consts-overrides+fmt", vec![300]),
         ("members+fmt", vec![300]),
         ("entries+fmt", vec![64]),
         ("huge-group-index", vec![1_000, 100_000_000, 4_294_967_295]),
@@ -850,9 +852,32 @@ pub fn child(kind: &str, depth: usize) -> i32 {
             return 0;
         }
         let t1 = thread_cpu_seconds();
+        let w1 = std::time::Instant::now();
         let out = if fmt { generate_with_unguarded(&sh.src, None, Config { rustfmt: true, ..Config::default() }.options()) } else { generate(&sh.src, &Config::default()) };
+        let cpu = thread_cpu_seconds() - t1;
+        let wall_on = w1.elapsed().as_secs_f64();
+        // formatter-on members: most of the time is spent waiting for formatter processes, which the thread's CPU time does
+        // not see. Reference measured in the same process under the same load: the formatter-off call plus ONE run of
+        // the formatter over the whole text. Printed as 4th / 5th field: wall seconds of the call, wall seconds of the reference.
+        let mut extra = String::new();
+        if fmt {
+            let w2 = std::time::Instant::now();
+            if let Outcome::Ok(text) = generate(&sh.src, &Config::default()) {
+                use std::io::Write;
+                if let Ok(mut ch) = std::process::Command::new("rustfmt").args(["--edition", "2021"]).stdin(std::process::Stdio::piped()).stdout(std::process::Stdio::piped()).stderr(std::process::Stdio::null()).spawn() {
+                    let mut stdin = ch.stdin.take().unwrap();
+                    let t = text.clone();
+                    let w = std::thread::spawn(move || {
+                        let _ = stdin.write_all(t.as_bytes());
+                    });
+                    let _ = ch.wait_with_output();
+                    let _ = w.join();
+                    extra = format!(" {wall_on:.6} {:.6}", w2.elapsed().as_secs_f64());
+                }
+            }
+        }
         // a typed refusal (Err) is a finished call as well; only a panic is "not Ok" here
-        println!("{} {:.6} {naga_s:.6}", matches!(out, Outcome::Ok(_) | Outcome::Err(..)) as u8, thread_cpu_seconds() - t1);
+        println!("{} {cpu:.6} {naga_s:.6}{extra}", matches!(out, Outcome::Ok(_) | Outcome::Err(..)) as u8);
         return 0;
     }
     let s = match kind {
@@ -1080,7 +1105,14 @@ pub fn run(tier: &str) -> i32 {
                 scale_report.push(json!({"family": kind, "n": n, "seconds": t, "naga_seconds": naga_s}));
                 rep.nontrivial.insert(hash64(&key));
                 if t > limit {
-                    rep.violation(key, format!("took {t:.2}s, limit {limit:.2}s = max(2 s, 50 x naga's own parse+validate {naga_s:.3}s)"), json!({"family": kind, "n": n}));
+                    rep.violation(key.clone(), format!("took {t:.2}s, limit {limit:.2}s = max(2 s, 50 x naga's own parse+validate {naga_s:.3}s)"), json!({"family": kind, "n": n}));
+                }
+                // formatter-on members: wall time of the call against formatter-off call + one whole-text formatter run
+                if let (Some(on), Some(reference)) = (p.get(3).and_then(|x| x.parse::<f64>().ok()), p.get(4).and_then(|x| x.parse::<f64>().ok())) {
+                    let wlimit = (8.0 * reference).max(3.0);
+                    if on > wlimit {
+                        rep.violation(key, format!("with the formatter on the call took {on:.1}s of wall time; generating without it and formatting the whole text once took {reference:.2}s in the same process (limit max(3 s, 8 x that))"), json!({"family": kind, "n": n}));
+                    }
                 }
             }
             Err(e) if e.starts_with("timeout") => rep.violation(key, "did not finish within 20 s (naga itself needs milliseconds for this shader)".to_string(), json!({"family": kind, "n": n})),
